@@ -2068,11 +2068,11 @@ class Data(BaseCartesianData):
         if ndim >= 1:
             if xmax == xmin:
                 xmax = xmin + 1
-            xmax += 10 * np.spacing(xmax)
+            xmax += 10 * np.spacing(np.abs(xmax))
         if ndim >= 2:
             if ymax == ymin:
                 ymax = ymin + 1
-            ymax += 10 * np.spacing(ymax)
+            ymax += 10 * np.spacing(np.abs(ymax))
 
         if ndim == 1:
             range = (xmin, xmax)
